@@ -538,4 +538,304 @@ theorem all_done_of_closed_ok {cfg : Cfg} (wf : WF cfg) {s : State} (hI : Inv cf
   have hok := h.cok _ (Or.inr (Or.inr hcl)) (cfg.job i) hmem
   exact h.ok_done _ hok i hi rfl
 
+
+/-! ### failures are reported -/
+
+structure EInv (cfg : Cfg) (s : State) : Prop where
+  err_cause : ∀ j : Nat, s.futs[j]? = some .err →
+    (∃ i, cfg.job i = j ∧ s.tasks[i]? = some (.done false)) ∨
+    (∃ q', (cfg.jobc j).sub = some q' ∧ (s.pl q').owner = .closed true)
+  closed_err : ∀ q, ((s.pl q).owner = .join true ∨ (s.pl q).owner = .closed true) →
+    ∃ j, j ∈ (s.pl q).collected ∧ s.futs[j]? = some .err
+
+theorem EInv_init (cfg : Cfg) : EInv cfg (init cfg) := by
+  refine ⟨fun j hj => by simp [init, List.getElem?_replicate] at hj, fun q hq => ?_⟩
+  exfalso
+  rw [init_pl] at hq; split at hq
+  · unfold initPool at hq; split at hq <;> simp at hq
+  · simp at hq
+
+theorem EInv_congr {cfg : Cfg} {s s' : State} (h : EInv cfg s) (ht : s'.tasks = s.tasks)
+    (hf : s'.futs = s.futs) (ho : ∀ q, (s'.pl q).owner = (s.pl q).owner)
+    (hc : ∀ q, (s'.pl q).collected = (s.pl q).collected) : EInv cfg s' := by
+  refine ⟨fun j hj => ?_, fun q hq => ?_⟩
+  · rw [hf] at hj
+    rcases h.err_cause j hj with ⟨i, h1, h2⟩ | ⟨q', h1, h2⟩
+    · exact Or.inl ⟨i, h1, by rw [ht]; exact h2⟩
+    · exact Or.inr ⟨q', h1, by rw [ho]; exact h2⟩
+  · rw [ho] at hq; rw [hc, hf]; exact h.closed_err q hq
+
+/-- tensor `i` (in progress) changes its program counter; finished tensors are untouched -/
+theorem EInv_set {cfg : Cfg} {s s' : State} (h : EInv cfg s) {i : Nat} {p x : Pc}
+    (hi : s.tasks[i]? = some p) (hp : act p = true)
+    (ht : s'.tasks = s.tasks.set i x) (hf : s'.futs = s.futs) (hps : s'.pools = s.pools) :
+    EInv cfg s' := by
+  have hpl : ∀ q, s'.pl q = s.pl q := fun q => by simp [State.pl, hps]
+  refine ⟨fun j hj => ?_, fun q hq => by rw [hpl] at hq ⊢; rw [hf]; exact h.closed_err q hq⟩
+  rw [hf] at hj
+  rcases h.err_cause j hj with ⟨i', h1, h2⟩ | ⟨q', h1, h2⟩
+  · have e : i ≠ i' := by intro e; subst e; rw [hi] at h2; simp at h2; subst h2; simp at hp
+    exact Or.inl ⟨i', h1, by rw [ht]; simp only [List.getElem?_set, e, if_false]; exact h2⟩
+  · exact Or.inr ⟨q', h1, by rw [hpl]; exact h2⟩
+
+theorem EInv_wake {cfg : Cfg} {s : State} (h : EInv cfg s) :
+    EInv cfg { s with tasks := s.tasks.map wake } := by
+  refine ⟨fun j hj => ?_, h.closed_err⟩
+  rcases h.err_cause j hj with ⟨i', h1, h2⟩ | ⟨q', h1, h2⟩
+  · exact Or.inl ⟨i', h1, by simp [h2, wake]⟩
+  · exact Or.inr ⟨q', h1, h2⟩
+
+theorem EInv_finish {cfg : Cfg} (wf : WF cfg) {s : State} (h : EInv cfg s) (hk : KInv cfg s)
+    (hs : SInv cfg s) {i : Nat} {p : Pc} (ok : Bool) (hi : s.tasks[i]? = some p) (hp : act p = true) :
+    EInv cfg (finishTask cfg s i ok) := by
+  have hlt := getElem?_lt hi
+  have hpd : p ≠ .done true := by intro e; subst e; simp at hp
+  have hrun := hk.act_run i p hi hp
+  have hjf : cfg.job i < s.futs.length := getElem?_lt hrun
+  rcases finishTask_cases cfg s i ok with ⟨rfl, hn, e⟩ | ⟨hno, e⟩
+  · rw [e]
+    have hnext := hs.next_notStarted hi hpd hn
+    refine ⟨fun j hj => ?_, h.closed_err⟩
+    rcases h.err_cause j hj with ⟨i', h1, h2⟩ | ⟨q', h1, h2⟩
+    · have e1 : i ≠ i' := by intro e1; subst e1; rw [hi] at h2; simp at h2; subst h2; simp at hp
+      have e2 : i + 1 ≠ i' := by intro e2; subst e2; rw [hnext] at h2; simp at h2
+      exact Or.inl ⟨i', h1, by simp only [List.getElem?_set, e1, e2, if_false]; exact h2⟩
+    · exact Or.inr ⟨q', h1, h2⟩
+  · rw [e]
+    refine ⟨fun j hj => ?_, fun q hq => ?_⟩
+    · by_cases hje : cfg.job i = j
+      · subst hje
+        cases ok
+        · exact Or.inl ⟨i, rfl, by simp [hlt]⟩
+        · simp [hjf] at hj
+      · simp only [List.getElem?_set, hje, if_false] at hj
+        rcases h.err_cause j hj with ⟨i', h1, h2⟩ | ⟨q', h1, h2⟩
+        · have e1 : i ≠ i' := by intro e1; subst e1; exact hje h1
+          exact Or.inl ⟨i', h1, by simp only [List.getElem?_set, e1, if_false]; exact h2⟩
+        · refine Or.inr ⟨q', h1, ?_⟩
+          show ((addIdle s.pools (cfg.poolOf i)).getD q' default).owner = _
+          rw [addIdle_owner]; exact h2
+    · have hq' : (s.pl q).owner = .join true ∨ (s.pl q).owner = .closed true := by
+        have e1 : ((addIdle s.pools (cfg.poolOf i)).getD q default).owner = (s.pl q).owner := addIdle_owner _ _ _
+        rcases hq with hq | hq
+        · left; rw [← e1]; exact hq
+        · right; rw [← e1]; exact hq
+      obtain ⟨j, hj1, hj2⟩ := h.closed_err q hq'
+      refine ⟨j, ?_, ?_⟩
+      · show j ∈ ((addIdle s.pools (cfg.poolOf i)).getD q default).collected
+        rw [addIdle_collected]; exact hj1
+      · have hne : cfg.job i ≠ j := by intro e1; rw [e1, hj2] at hrun; simp at hrun
+        simp only [List.getElem?_set, hne, if_false]; exact hj2
+
+/-- only futures change; `err` is neither gained nor lost -/
+theorem E_futs {cfg : Cfg} {s : State} (h : EInv cfg s) {fs : List Fut}
+    (hE1 : ∀ j : Nat, fs[j]? = some .err → s.futs[j]? = some .err)
+    (hE2 : ∀ j : Nat, s.futs[j]? = some .err → fs[j]? = some .err) :
+    EInv cfg { s with futs := fs } :=
+  ⟨fun j hj => h.err_cause j (hE1 j hj), fun q hq => by
+    obtain ⟨j, h1, h2⟩ := h.closed_err q hq; exact ⟨j, h1, hE2 j h2⟩⟩
+
+theorem E_set_pool {cfg : Cfg} {s : State} (h : EInv cfg s) {q : Nat} {P P' : PoolSt}
+    (hP : s.pools[q]? = some P)
+    (hcl : P.owner = .closed true → P'.owner = .closed true)
+    (hce : (P'.owner = .join true ∨ P'.owner = .closed true) →
+      ∃ j, j ∈ P'.collected ∧ s.futs[j]? = some .err) :
+    EInv cfg { s with pools := s.pools.set q P' } := by
+  have hplq := pl_of_get hP
+  have hpl : ∀ q', ({ s with pools := s.pools.set q P' } : State).pl q' = if q' = q then P' else s.pl q' :=
+    fun q' => pl_upd hP q'
+  refine ⟨fun j hj => ?_, fun q' hq' => ?_⟩
+  · rcases h.err_cause j hj with ⟨i', h1, h2⟩ | ⟨q', h1, h2⟩
+    · exact Or.inl ⟨i', h1, h2⟩
+    · refine Or.inr ⟨q', h1, ?_⟩
+      rw [hpl]; split
+      · rename_i e; subst e; rw [hplq] at h2; exact hcl h2
+      · exact h2
+  · rw [hpl] at hq' ⊢
+    by_cases e : q' = q
+    · simp only [e, if_true] at hq' ⊢; exact hce hq'
+    · simp only [e, if_false] at hq' ⊢; exact h.closed_err q' hq'
+
+
+theorem E_start_task {cfg : Cfg} {s : State} (h : EInv cfg s) {k : Nat} {x : Pc}
+    (hk : s.tasks[k]? = some .notStarted) : EInv cfg { s with tasks := s.tasks.set k x } := by
+  refine ⟨fun j hj => ?_, h.closed_err⟩
+  rcases h.err_cause j hj with ⟨i', h1, h2⟩ | ⟨q', h1, h2⟩
+  · have e : k ≠ i' := by intro e; subst e; rw [hk] at h2; simp at h2
+    exact Or.inl ⟨i', h1, by simp only [List.getElem?_set, e, if_false]; exact h2⟩
+  · exact Or.inr ⟨q', h1, h2⟩
+
+theorem EInv_step {cfg : Cfg} (wf : WF cfg) {s s' : State} {l : Label} (hI : Inv cfg s)
+    (hk : KInv cfg s) (h : EInv cfg s) (hst : StepRel cfg s l s') : EInv cfg s' := by
+  have hs := hI.s
+  have same : ∀ {q : Nat} {P P' : PoolSt}, s.pools[q]? = some P → P'.owner = P.owner →
+      P'.collected = P.collected → EInv cfg { s with pools := s.pools.set q P' } := by
+    intro q P P' hP ho hc
+    have hplq := pl_of_get hP
+    refine E_set_pool h hP (fun x => by rw [ho]; exact x) (fun hq => ?_)
+    rw [ho] at hq; rw [hc, ← hplq]; exact h.closed_err q (by rw [hplq]; exact hq)
+  have setrun : ∀ {j : Nat}, s.futs[j]? = some .pending →
+      EInv cfg { s with futs := s.futs.set j .running } := by
+    intro j hpj
+    have hjf := getElem?_lt hpj
+    refine E_futs h (fun x hx => ?_) (fun x hx => ?_)
+    · have hne : j ≠ x := by intro e; subst e; simp [hjf] at hx
+      simp only [List.getElem?_set, hne, if_false] at hx; exact hx
+    · have hne : j ≠ x := by intro e; subst e; rw [hpj] at hx; simp at hx
+      simp only [List.getElem?_set, hne, if_false]; exact hx
+  cases hst with
+  | submit q c k j P hP hk' hj =>
+      refine E_set_pool h hP (fun x => by rw [hk'] at x; simp at x) (fun hq => ?_)
+      simp only at hq; rcases hq with hq | hq <;> (split at hq <;> simp at hq)
+  | collect q c j ok P hP hm hjj hf =>
+      have hplq := pl_of_get hP
+      unfold collectOne
+      cases ok
+      · simp only [Bool.false_eq_true, if_false] at hf ⊢
+        split
+        · have hqp : ∀ x ∈ P.queue, s.futs[x]? = some .pending := fun x hx =>
+            (hs.q_pending q x (by rw [hplq]; exact hx)).1
+          have h1 := E_futs h (fs := P.queue.foldl (fun fs x => fs.set x .cancelled) s.futs)
+            (by intro x hx; rw [foldl_set_get] at hx; split at hx
+                · simp at hx
+                · exact hx)
+            (by intro x hx; rw [foldl_set_get]; split
+                · rename_i hin; rw [hqp x hin.1] at hx; simp at hx
+                · exact hx)
+          refine E_set_pool h1 (P' := { P with collected := j :: P.collected, shutdown := true
+                                               owner := .join true, queue := [] }) hP
+            (fun x => by rw [hm] at x; simp at x) (fun _ => ⟨j, by simp, ?_⟩)
+          show (P.queue.foldl (fun fs x => fs.set x Fut.cancelled) s.futs)[j]? = some .err
+          rw [foldl_set_get]; split
+          · rename_i hin; rw [hqp j hin.1] at hf; simp at hf
+          · exact hf
+        · exact E_set_pool h (P' := { P with collected := j :: P.collected, shutdown := true
+                                             owner := .join true }) hP
+            (fun x => by rw [hm] at x; simp at x) (fun _ => ⟨j, by simp, hf⟩)
+      · simp only [if_true]
+        split
+        · exact E_set_pool h (P' := { P with collected := j :: P.collected, shutdown := true
+                                             owner := .join false }) hP
+            (fun x => by rw [hm] at x; simp at x) (fun hq => by simp at hq)
+        · exact E_set_pool h (P' := { P with collected := j :: P.collected }) hP
+            (fun x => by rw [hm] at x; simp at x) (fun hq => by simp [hm] at hq)
+  | joinRoot q c e P hP hm hex hpar =>
+      have hplq := pl_of_get hP
+      refine E_set_pool h hP (fun x => by rw [hm] at x; simp at x) (fun hq => ?_)
+      simp at hq; subst hq
+      have := h.closed_err q (Or.inl (by rw [hplq]; exact hm)); rw [hplq] at this; exact this
+  | joinSub q c e P jp hP hm hex hpar =>
+      have hplq := pl_of_get hP
+      have hql : q < cfg.nPools := by rw [← hs.pools_len]; exact getElem?_lt hP
+      obtain ⟨hjpl, hjsub⟩ := wf.parent_sub q jp hql hpar
+      have hold := hk.own_run q jp hpar (by rw [hplq, hm]; rfl)
+      have hjf : jp < s.futs.length := getElem?_lt hold
+      have h1 := E_set_pool h (P' := { P with owner := .closed e }) hP
+        (fun x => by rw [hm] at x; simp at x)
+        (fun hq => by
+          simp at hq; subst hq
+          have := h.closed_err q (Or.inl (by rw [hplq]; exact hm)); rw [hplq] at this; exact this)
+      have h2 : EInv cfg { s with pools := addIdle (s.pools.set q { P with owner := .closed e })
+                                            (cfg.jobc jp).pool } :=
+        EInv_congr h1 rfl rfl (fun q' => addIdle_owner _ _ _) (fun q' => addIdle_collected _ _ _)
+      have hcl : (({ s with pools := addIdle (s.pools.set q { P with owner := .closed e })
+                                       (cfg.jobc jp).pool } : State).pl q).owner = .closed e := by
+        simp only [State.pl]; rw [addIdle_owner, pl_upd hP]; simp
+      refine ⟨fun j hj => ?_, fun q' hq' => ?_⟩
+      · by_cases hje : jp = j
+        · subst hje
+          cases e
+          · simp [hjf] at hj
+          · exact Or.inr ⟨q, hjsub, hcl⟩
+        · simp only [List.getElem?_set, hje, if_false] at hj
+          exact h2.err_cause j hj
+      · obtain ⟨j, hj1, hj2⟩ := h2.closed_err q' hq'
+        refine ⟨j, hj1, ?_⟩
+        have hne : jp ≠ j := by
+          intro e1; subst e1
+          have : s.futs[jp]? = some .err := hj2
+          rw [hold] at this; simp at this
+        simp only [List.getElem?_set, hne, if_false]; exact hj2
+  | takeSerial q j rest P hP hq hidle hsub =>
+      have hplq := pl_of_get hP
+      obtain ⟨_, _, hpj, _, _, _, _, _⟩ := take_facts wf hs hP hq
+      have hjq : j ∈ (s.pl q).queue := by rw [hplq, hq]; simp
+      have hst := hs.start_notStarted wf hjq hsub
+      have h1 := setrun hpj
+      have hpl1 : ({ s with futs := s.futs.set j .running } : State).pl q = P := hplq
+      have h2 := E_set_pool h1 (P' := { P with queue := rest, idle := P.idle - 1 }) hP (fun x => x)
+        (fun hq' => by have := h1.closed_err q (by rw [hpl1]; exact hq'); rw [hpl1] at this; exact this)
+      exact E_start_task h2 hst
+  | takeSub q j rest P q' hP hq hidle hsub =>
+      have hplq := pl_of_get hP
+      obtain ⟨_, _, hpj, hpool, hjl, hncP, _, _⟩ := take_facts wf hs hP hq
+      obtain ⟨hq'l, hpar, hlt⟩ := wf.sub_pool j q' hjl hsub
+      have hqq : q' ≠ q := by rw [hpool] at hlt; omega
+      have hfr : (s.pl q').owner = .notCreated := by
+        cases ho : (s.pl q').owner with
+        | notCreated => rfl
+        | _ => exact absurd hpj (hs.created q' j hpar (by rw [ho]; simp))
+      have hq'len : q' < (s.pools.set q { P with queue := rest, idle := P.idle - 1 }).length := by
+        simp [hs.pools_len]; exact hq'l
+      have hget : (s.pools.set q { P with queue := rest, idle := P.idle - 1 })[q']? = some (s.pl q') := by
+        have := pl_upd (P' := { P with queue := rest, idle := P.idle - 1 }) hP q'
+        simp only [hqq, if_false] at this
+        rw [List.getD_eq_getElem?_getD] at this
+        rw [List.getElem?_eq_getElem hq'len] at this ⊢
+        simp at this; rw [this]
+      have h1 := setrun hpj
+      have hpl1 : ({ s with futs := s.futs.set j .running } : State).pl q = P := hplq
+      have h2 := E_set_pool h1 (P' := { P with queue := rest, idle := P.idle - 1 }) hP (fun x => x)
+        (fun hq' => by have := h1.closed_err q (by rw [hpl1]; exact hq'); rw [hpl1] at this; exact this)
+      exact E_set_pool h2 (q := q')
+        (P' := { (s.pools.set q { P with queue := rest, idle := P.idle - 1 }).getD q' default with
+                 owner := .submit 0, idle := (cfg.pool q').size }) hget
+        (fun x => by rw [hfr] at x; simp at x) (fun hq' => by simp at hq')
+  | exit q P hP hq hsd hidle =>
+      exact same (P' := { P with idle := P.idle - 1, exited := P.exited + 1 }) hP rfl rfl
+  | cbAcqIn i hi hl => exact EInv_set h hi rfl rfl rfl rfl
+  | cbAcq i hi hl => exact EInv_set h hi rfl rfl rfl rfl
+  | cbFail i hi hf =>
+      exact EInv_finish wf (s := { s with log := s.log ++ [i], cbLock := false,
+                                          cbIn := if (cfg.pool (cfg.poolOf i)).innerCb
+                                            then s.cbIn.set (cfg.poolOf i) false else s.cbIn })
+        (EInv_congr h rfl rfl (fun _ => rfl) (fun _ => rfl))
+        (KInv_congr hk rfl rfl (fun _ => rfl) (fun _ => rfl))
+        (SInv_congr hs rfl rfl rfl rfl (by simp only; split <;> simp) (fun _ => rfl) (fun _ => rfl))
+        false hi rfl
+  | cbOk i hi hf => exact EInv_set h hi rfl rfl rfl rfl
+  | tAcq i hi hl => exact EInv_set h hi rfl rfl rfl rfl
+  | bTry i p hi hp' =>
+      have hp1 : act p = true := by rcases hp' with rfl | rfl <;> rfl
+      rcases budgetTry_cases cfg s i with ⟨_, _, e⟩ | ⟨_, _, e⟩ | ⟨_, _, e⟩ | ⟨_, _, e⟩ <;> rw [e] <;>
+        exact EInv_set h hi hp1 rfl rfl rfl
+  | writeFail i hi hf => exact EInv_set h hi rfl rfl rfl rfl
+  | writeOk i hi hf => exact EInv_set h hi rfl rfl rfl rfl
+  | bRel i ok hi =>
+      unfold budgetRelease
+      refine EInv_finish wf (p := .bRel ok) ?_ ?_ ?_ ok (by simp [hi, wake]) rfl
+      · exact EInv_congr (s := { s with tasks := s.tasks.map wake }) (EInv_wake h) rfl rfl
+          (fun _ => rfl) (fun _ => rfl)
+      · exact KInv_congr (s := { s with tasks := s.tasks.map wake }) (KInv_wake hk) rfl rfl
+          (fun _ => rfl) (fun _ => rfl)
+      · exact SInv_congr (s := { s with tasks := s.tasks.map wake }) (SInv_wake hs) rfl rfl
+          (by simp) rfl rfl (fun _ => rfl) (fun _ => rfl)
+
+/-- a pool closed with an error has a failed tensor somewhere below it -/
+theorem closed_err_cause {cfg : Cfg} (wf : WF cfg) {s : State} (hI : Inv cfg s) (h : EInv cfg s) :
+    ∀ (m q : Nat), cfg.nPools - q ≤ m → (s.pl q).owner = .closed true →
+      ∃ i : Nat, s.tasks[i]? = some (.done false)
+  | 0, q, hm, ho => by
+      have : q < s.pools.length := pl_lt_of_owner (by rw [ho]; simp)
+      rw [hI.s.pools_len] at this; omega
+  | m + 1, q, hm, ho => by
+      obtain ⟨j, hj1, hj2⟩ := h.closed_err q (Or.inr ho)
+      rcases h.err_cause j hj2 with ⟨i, _, hi⟩ | ⟨q', hsub, hq'⟩
+      · exact ⟨i, hi⟩
+      · have hjl : j < cfg.nJobs := by rw [← hI.s.futs_len]; exact getElem?_lt hj2
+        obtain ⟨_, _, hlt⟩ := wf.sub_pool j q' hjl hsub
+        have hjq := hI.c.mem q j hj1
+        have := (wf.job_pool q j hjq).2.1
+        exact closed_err_cause wf hI h m q' (by omega) hq'
+
 end IrVerif.WriterN
